@@ -331,6 +331,36 @@ def toFanout (τ : Topo) (s i : Nat) : EM Unit := do
     pullTo τ .pl (st.p.flow.pl.length - 1) s i 10000
     advance τ .pl (st.p.flow.pl.length - 1) s
 
+/-- will `(s,i)` be acked to its source by its ack handler (a later `Source.Ack` that is not preceded
+by a DLQ write of it)? Then every destination's clone of it still has to be acked. -/
+def ackedLater (rest : List Obs) (s i : Nat) : Bool :=
+  let rec go : List Obs → Bool
+    | [] => false
+    | .dlqw s' i' _ :: r => if s' == s && i' == i then false else go r
+    | .sack s' i' _ :: r => if s' == s && i' == i then true else go r
+    | _ :: r => go r
+  go rest
+
+/-- destination d's acker worker is about to be declared gone (inferred, not observed). The model
+does not queue filtered clones, so the ones that worker must still have acked — filtered clones of
+messages the trace acks later — are acked first. -/
+def preSettle (nSrc : Nat) (τ : Topo) (rest : List Obs) (d : Nat) : EM Unit := do
+  for s in List.range nSrc do
+    let n := (← get).p.ack.reads s
+    for i in List.range n do
+      let a := (← get).p.ack
+      if a.ost s i == .open && ackedLater rest s i &&
+          ((a.fanned s i && a.clone s i d == .open && a.clFilt s i d) || (!a.fanned s i && a.filt s i)) then
+        try
+          toFanout τ s i
+          let a := (← get).p.ack
+          if a.clone s i d == .open && a.clFilt s i d then settleClone τ d s i 10000
+        catch _ => pure ()
+
+def killWorker (nSrc : Nat) (τ : Topo) (rest : List Obs) (d : Nat) : EM Unit := do
+  preSettle nSrc τ rest d
+  emit τ (.wkill d)
+
 /-- the handler of `(s,i)` has run (its ticket was released) or will never be waited for. -/
 def settled (a : Ack) (s i : Nat) : Bool :=
   match a.ost s i with
@@ -343,7 +373,7 @@ def settled (a : Ack) (s i : Nat) : Bool :=
     ("message was nacked by another node");
   * a worker that is not waiting has a buffered ack that does not match its queue head
     ("received unexpected ack"), or that acks a clone of an already nacked message. -/
-def reapWorkers (sc_m : Nat) (τ : Topo) : EM Unit := do
+def reapWorkers (nSrc sc_m : Nat) (τ : Topo) (rest : List Obs) : EM Unit := do
   for d in List.range sc_m do
     for _ in List.range 64 do
       let st ← get
@@ -353,15 +383,15 @@ def reapWorkers (sc_m : Nat) (τ : Topo) : EM Unit := do
         | some (s, i) => !settled a s i
         | none => false
       match st.lastAck d with
-      | some (s, i) => if a.ost s i == .nacked then do emit τ (.wkill d); break
+      | some (s, i) => if a.ost s i == .nacked then do killWorker nSrc τ rest d; break
       | none => pure ()
       if blocked then break
       match (a.aq d)[0]?, a.buf d with
       | some (s, i), x :: _ =>
-        if x.1 != some (s, i) then do emit τ (.dbuf d); break
+        if x.1 != some (s, i) then do preSettle nSrc τ rest d; emit τ (.dbuf d); break
         else if x.2 && a.ost s i == .nacked && a.clone s i d == .open then do
-          emit τ (.dbuf d)
-          emit τ (.wkill d)
+          -- what the worker acked before it got to this reply element comes first
+          killWorker nSrc τ rest d
           break
         else break
       | _, _ => break
@@ -415,10 +445,10 @@ def handle (sc : Scn) (τ : Topo) (o : Obs) (rest : List Obs) : EM Unit := do
         | none => break
       if !(← tryEmit τ (.dreply d acks)) then do
         -- not what a live worker can have asked for: the worker is gone, teardown drains the plugin
-        emit τ (.wkill d)
+        killWorker sc.n τ rest d
         emit τ (.dreply d acks)
   | .dreplyErr d =>
-    if !(← tryEmit τ (.dreplyErr d)) then emit τ (.wkill d)
+    if !(← tryEmit τ (.dreplyErr d)) then killWorker sc.n τ rest d
   | .sack s i r =>
     let st ← get
     match st.p.ack.hst s with
@@ -430,7 +460,7 @@ def handle (sc : Scn) (τ : Topo) (o : Obs) (rest : List Obs) : EM Unit := do
       if r ≠ .err then emit τ (.winAck s)
       else
         -- the error goes back to every branch's ack handler: all acker workers stop
-        for d in List.range sc.m do emit τ (.wkill d)
+        for d in List.range sc.m do killWorker sc.n τ rest d
   | .dlqw s i ok =>
     -- if the trace still mentions a clone of it, it went through the fan-out before it was nacked
     if (← get).p.ack.ost s i = .open ∧ (← get).p.ack.fanned s i = false ∧
@@ -458,7 +488,7 @@ def handle (sc : Scn) (τ : Topo) (o : Obs) (rest : List Obs) : EM Unit := do
             fun _ => (List.range sc.m).find? fun d => isOpen d && noAct d
           match cand with
           | some d =>
-            if !a.wdead d && (a.aq d).contains (s, i) && mentionsClone a.wdead rest d s i then emit τ (.wkill d)
+            if !a.wdead d && (a.aq d).contains (s, i) && mentionsClone a.wdead rest d s i then killWorker sc.n τ rest d
             emit τ (.nackB d s i)
           | none => throw s!"no clone of {s}.{i} can have been nacked"
     emit τ (.dlqw s i ok)
@@ -469,7 +499,7 @@ def runTrace (sc : Scn) (τ : Topo) : List Obs → Nat → EM Unit
   | o :: rest, k => do
     try
       handle sc τ o rest
-      reapWorkers sc.m τ
+      reapWorkers sc.n sc.m τ rest
     catch e => throw s!"reject@{k}:{e}"
     runTrace sc τ rest (k+1)
 
